@@ -39,6 +39,10 @@ impl Prop for C13T {
         sc.knobs.clear();
         sc.set("via", via as i64);
         sc.scheds.truncate(1);
+        // one scenario in five also loses the link at some transport call and reconnects
+        if rng.chance(1, 5) {
+            sc.set("fault_at", rng.below(10) as i64);
+        }
         sc
     }
     fn check(&self, sc: &Scenario, st: &mut Stats) -> Verdict {
@@ -57,6 +61,10 @@ impl Prop for C13T {
             let mut ex = Exec::new(sc.iface, sc.cap, sc.n, mode, bytes.clone());
             ex.chunks = s.chunks.clone();
             ex.susp = s.susp.clone();
+            if let Some(k) = sc.knob("fault_at") {
+                ex.fault_at = Some(k as usize);
+                ex.restart = true;
+            }
             let o = exec(&ex, st);
             if o.unsupported {
                 return Verdict::Skip("skip:unsupported-configuration");
